@@ -59,6 +59,24 @@ def gen_cases(tier, rng):
         lat = [v for v in vs if rng.random() < 0.45]
         if lat:
             yield {"nodes": vs, "edges": edges, "latents": lat}
+    # latent chains: a latent with observed parents whose children include another latent (the rules that exogenise latents and then
+    # remove redundant ones interact here); uniform sampling of 5-6 node DAGs reaches this shape too rarely
+    for _ in range(400 if tier == "quick" else 8000):
+        k = rng.choice([2, 2, 3])
+        lats = [f"V{i}" for i in range(k)]
+        obs = [f"V{i}" for i in range(k, k + rng.choice([3, 4]))]
+        par = obs[0]
+        edges = [(lats[i], lats[i + 1]) for i in range(k - 1)]
+        if rng.random() < 0.8:
+            edges.append((par, lats[0]))
+        for i, l in enumerate(lats):
+            kids = rng.sample(obs[1:], rng.randint(1 if i < k - 1 else 2, len(obs) - 1))
+            edges += [(l, c) for c in kids]
+        for i in range(len(obs)):
+            for j in range(i + 1, len(obs)):
+                if rng.random() < 0.25:
+                    edges.append((obs[i], obs[j]))
+        yield {"nodes": lats + obs, "edges": sorted(set(edges)), "latents": lats}
 
 
 def run_case(c):
